@@ -1,0 +1,100 @@
+//go:build verif
+
+package coreblock
+
+// Contracts checked by /verif's govc (protocol dialect).  Comments only; build tag "verif".
+
+//@ unit coreblock errflow
+//@ ghost failed bool
+//@
+//@ extern NewErr* -> (e)
+//@   ensures e != nil
+//@   nodefault
+//@ extern errors.* -> (e)
+//@   nodefault
+//@
+//@ // getters of the delta union and context lookups do not write memory (assumed)
+//@ extern (crdt.CRDT).Get* -> (r)
+//@   pure
+//@   nodefault
+//@ extern (crdt.CRDT).Is* -> (r)
+//@   pure
+//@   nodefault
+//@ extern immutable.* -> (r)
+//@   pure
+//@   nodefault
+//@ extern coreblock.EnabledSigningFromContext(ctx) -> (r)
+//@   pure
+//@   nodefault
+//@ extern (datastore.Txn).*store(t) -> (s)
+//@   nodefault
+//@ extern datastore.CtxMustGetTxn(ctx) -> (t)
+//@   pure
+//@   nodefault
+//@
+//@ // ===== C05: every storage failure on the commit path is reported ===================================
+//@ protocol ErrFlow
+//@   requires !failed
+//@   ensures errResult == nil ==> !failed
+//@   modifies failed
+//@   tags C05
+//@ apply ErrFlow: putBlock, AddDelta, determineBlockEncryption, encryptBlock, ProcessBlock, updateHeads, signBlock,
+//@   (*heads).Write, (*heads).Replace, (*heads).List, getBlockBytesToSign, verifySignature, loadSignatureBlock,
+//@   VerifyBlockSignature, VerifyBlockSignatureWithKey
+//@
+//@ // ===== C04: height = max(parent heights)+1, parents = current heads, the link announced is the link stored
+//@ func AddDelta -> (rlink, rbytes, err)
+//@   assert before call#1 SetPriority: arg1 == res(List, 1, 1) + 1
+//@   assert before call#1 New: sameslice(arg2, res(List, 1, 0))
+//@   assert before call#1 ProcessBlock: arg3 == res(putBlock, 1, 0) && arg2 == res(New, 1, 0)
+//@   ensures err == nil ==> rlink == res(putBlock, 1, 0) && sameslice(rbytes, res(Marshal, 1, 0))
+//@   tags C04 C20
+//@ // ===== C11: when an encryption block applies, what is stored in the shared blockstore and what is
+//@ // returned for publication is the encrypted clone; the plaintext block only feeds the local merge
+//@ func AddDelta
+//@   assert before call#1 putBlock: res(determineBlockEncryption, 1, 0) != nil ==> as(arg2, *Block) == res(encryptBlock, 1, 0)
+//@   assert before call#1 Marshal: res(determineBlockEncryption, 1, 0) != nil ==> arg0 == res(encryptBlock, 1, 0)
+//@   assert before call#1 putBlock: arg1 == res(Blockstore, 2, 0) || arg1 == res(Blockstore, 1, 0)
+//@   tags C11
+//@ func encryptBlock -> (r, err)
+//@   assert before call#1 Encrypt: sameslice(arg1, res(GetData, 1, 0)) && sameslice(arg2, encBlock.Key)
+//@   assert before call#1 SetData: arg0 == res(Clone, 1, 0) && sameslice(arg1, res(Encrypt, 1, 0))
+//@   assert before call#1 GetData: arg0 == res(Clone, 1, 0)
+//@   requires block != nil && block.Signature == nil
+//@   ensures err == nil && !res(IsComposite, 1, 0) && !res(IsCollection, 1, 0) ==> r != block && r.Delta == res(Clone, 1, 0)
+//@   ensures err == nil ==> r != nil && r.Signature == nil
+//@   tags C11 C12
+//@ func determineBlockEncryption -> (enc, link, err)
+//@   assert before call#1 putBlock: arg1 == res(Encstore, 1, 0)
+//@   tags C11
+//@
+//@ // ===== C12: the bytes signed are the marshalled block without signature link; verification checks
+//@ // exactly those bytes against the key named by the signature block
+//@ func New -> (b)
+//@   ensures b != nil && b.Signature == nil && b.Encryption == nil
+//@   tags C12
+//@ func signBlock -> (err)
+//@   requires block.Signature == nil
+//@   assert before call#1 Sign: sameslice(arg1, res(Marshal, 1, 0))
+//@   assert before call#1 Marshal: arg0 == block
+//@   tags C12
+//@ func getBlockBytesToSign -> (b, err)
+//@   assert before call#1 marshalNode: as(arg0, *Block).Signature == nil && as(arg0, *Block).Delta == block.Delta && as(arg0, *Block).Encryption == block.Encryption
+//@   assert before call#1 marshalNode: sameslice(as(arg0, *Block).Heads, block.Heads) && sameslice(as(arg0, *Block).Links, block.Links)
+//@   tags C12
+//@ func verifySignature -> (err)
+//@   ensures err == nil ==> res(Verify, 1, 0) && res(Verify, 1, 1) == nil
+//@   tags C12
+//@ func VerifyBlockSignature -> (ran, err)
+//@   assert before call#1 verifySignature: sameslice(arg1, res(getBlockBytesToSign, 1, 0)) && sameslice(arg2, res(loadSignatureBlock, 1, 0).Value) && arg0 == res(getPublicKeyFromSignature, 1, 0)
+//@   assert before call#1 getBlockBytesToSign: arg0 == block
+//@   assert before call#1 loadSignatureBlock: arg0 == block
+//@   assert before call#1 getPublicKeyFromSignature: arg0 == res(loadSignatureBlock, 1, 0)
+//@   ensures ran ==> err == res(verifySignature, 1, 0)
+//@   ensures block.Signature != nil && err == nil ==> ran
+//@   tags C12
+//@ func VerifyBlockSignatureWithKey -> (ran, err)
+//@   assert before call#1 verifySignature: sameslice(arg1, res(getBlockBytesToSign, 1, 0)) && sameslice(arg2, res(loadSignatureBlock, 1, 0).Value) && arg0 == pubKey
+//@   ensures ran ==> err == res(verifySignature, 1, 0)
+//@   ensures block.Signature != nil && err == nil ==> ran
+//@   tags C12
